@@ -308,11 +308,17 @@ class Replayer:
     def state(self, ent, key, hist):
         k = (ent, tuple(key), tuple(hist))
         if k not in self.cache:
-            self.cache[k] = self._with(ent, key, hist, lambda R: copy.deepcopy(R.current_rng().bit_generator.state))
+            try:
+                self.cache[k] = self._with(ent, key, hist, lambda R: copy.deepcopy(R.current_rng().bit_generator.state))
+            except Exception as e:
+                self.cache[k] = "replay raised %r" % (e,)
         return self.cache[k]
 
     def draw(self, ent, key, hist, kind, n):
-        return self._with(ent, key, hist, lambda R: api_draw(R, kind, n))
+        try:
+            return self._with(ent, key, hist, lambda R: api_draw(R, kind, n))
+        except Exception as e:
+            return np.array(["replay raised %r" % (e,)])
 
 
 def same_array(a, b):
@@ -777,7 +783,7 @@ class C21(C.Check):
         t1 = time.time()
         vcases = [c["case"] for c in corpus if c.get("kind") == "vi"]
         rngv = ctx.rng(22)
-        for i in range(10 if ctx.quick else 60):
+        for i in range(6 if ctx.quick else 60):
             vcases.append(gen_vi_case(rngv))
         self.vi_cases = vcases
         vbad, plain = self.check_vi(vcases, "vi")
@@ -848,6 +854,14 @@ class C21(C.Check):
         return count
 
     def run_oracle_input(self, inp):
+        try:
+            return self.run_oracle_input_(inp)
+        except C.MachineryError:
+            raise
+        except Exception as e:      # an implementation that raises where it must not
+            return "unexpected exception %r" % (e,)
+
+    def run_oracle_input_(self, inp):
         if inp["test"] == "restore":
             return oracle_restore(inp["entropy"], inp["variant"], inp["seed"], inp["body"])
         if inp["test"] == "local":
@@ -879,7 +893,7 @@ class C21(C.Check):
         t1 = time.time()
         rng = ctx.rng(24)
         nv = 0
-        for i in range((3 if ctx.quick else 12) * budget):
+        for i in range((2 if ctx.quick else 12) * budget):
             c = gen_vi_case(rng)
             impls = [[c["rm"], c["km"], c["jit"]]]
             for rm in MAPS:
@@ -887,7 +901,7 @@ class C21(C.Check):
                     if [rm, c["km"], jit] not in impls:
                         impls.append([rm, c["km"], jit])
             inp = {"test": "vi_strategy", "seed": c["seed"], "cfgs": c["cfgs"], "impls": impls}
-            f = self.oracle_vi_one(inp)
+            f = self.run_oracle_input(inp)
             nv += 1
             if f:
                 res.add_failing({"part": "vi_keys"}, f, inp)
